@@ -460,10 +460,30 @@ def check_dir_mtime(ctx):
             if isinstance(a, ast.Call) and U(a.func) == 'map' and len(
                     a.args) == 2 and is_getmtime(a.args[0]):
                 return candidates(p, a.args[1])
+        # max(e.stat().st_mtime for e in os.scandir(path)[, default=...]):
+        # the entries, and only the entries
+        if isinstance(m, ast.Call) and U(m.func) == 'max' and len(
+                m.args) == 1 and all(k.arg == 'default'
+                                     for k in m.keywords):
+            a = m.args[0]
+            if isinstance(a, (ast.GeneratorExp, ast.ListComp)) and len(
+                    a.generators) == 1 and not a.generators[0].ifs and U(
+                        a.elt) == '%s.stat().st_mtime' % U(
+                            a.generators[0].target):
+                it = en.expand(a.generators[0].iter)
+                while isinstance(it, ast.Call) and method_call(
+                        it, '__enter__'):
+                    it = method_call(it)[0]
+                if isinstance(it, ast.Call) and (prog.resolve(
+                        f.module, it.func) or '').endswith(
+                            'os.scandir') and it.args and U(
+                                it.args[0]) == path_p:
+                    return {'entries'}
         return None
 
     ok_cmp = ok_upd = False
     cand = None
+    unread = []
     n_true = 0
     why_cmp = 'no path reports an update'
     for p in t.paths:
@@ -511,11 +531,21 @@ def check_dir_mtime(ctx):
                         ).endswith('os.listdir') for c in p.conds):
                 # the listing loop did not run: there are no entries
                 got = got | {'entries'}
+            mx = en.expand(m)
+            if got is None and not (isinstance(mx, ast.UnaryOp)
+                                    and is_const(mx.operand)):
+                unread.append((p, m))
             if got is not None:
                 import os as _os
                 if _os.environ.get('PVERIF_DBG'): print('DBG', sorted(got), U(en.expand(m))[:100], p.cond_text()[-200:])
                 cand = got if cand is None else (cand & got)
     ctx.count(len(t.paths))
+    if unread:
+        raise AnalysisError(
+            'the newest modification time in %s is computed in a way the '
+            'analysis does not read (`%s`, not getmtime over a collection of '
+            'paths): whether the directory itself and every entry take part '
+            'is not decided' % (f.qual, U(en.expand(unread[0][1]))[:80]))
     ok_self = cand is not None and 'self' in cand
     ok_entries = cand is not None and 'entries' in cand
     other = sorted(x for x in (cand or ()) if x.startswith("?"))
